@@ -429,6 +429,39 @@ theorem letters_injective :
   rw [h1] at h2
   cases h2; rfl
 
+/-- **every answer of `get_closest_patient_orientation` is one of the 48 orientations** — for ANY matrix the
+function accepts (oblique, scaled, 45° ties): one letter per anatomical axis, never the same axis twice; and each
+letter's LPS unit vector has a non-negative component along its column. -/
+theorem closest_is_orientation (m : M3) (l : List Char) (h : closestOrientation m = .ok l) :
+    l ∈ allOrientations ∧
+    ∃ a b c, l = [a, b, c] ∧ 0 ≤ (letterVec a).dot m.c0 ∧ 0 ≤ (letterVec b).dot m.c1 ∧ 0 ≤ (letterVec c).dot m.c2 := by
+  unfold closestOrientation at h
+  split at h
+  · cases h
+  · have h0 := chooseAxis_nil m.c0
+    obtain ⟨h1, h10⟩ := chooseAxis_one m.c1 _ h0
+    obtain ⟨h2, h20, h21⟩ := chooseAxis_two m.c2 _ _ h0 h1 (Ne.symm h10)
+    obtain ⟨a, ha, hpa, hda⟩ := letterFor_spec m.c0 _ h0
+    obtain ⟨b, hb, hpb, hdb⟩ := letterFor_spec m.c1 _ h1
+    obtain ⟨c, hc, hpc, hdc⟩ := letterFor_spec m.c2 _ h2
+    simp only [ha, hb, hc, bind, Except.bind, pure, Except.pure, Except.ok.injEq] at h
+    subst h
+    refine ⟨?_, a, b, c, rfl, hda, hdb, hdc⟩
+    -- the three axes are a permutation of 0, 1, 2; each letter is the positive or negative letter of its axis
+    generalize chooseAxis m.c0 [] = i0 at *
+    generalize chooseAxis m.c1 [i0] = i1 at *
+    generalize chooseAxis m.c2 [i0, i1] = i2 at *
+    obtain rfl | rfl | rfl : i0 = 0 ∨ i0 = 1 ∨ i0 = 2 := by omega
+    all_goals (obtain rfl | rfl | rfl : i1 = 0 ∨ i1 = 1 ∨ i1 = 2 := by omega)
+    all_goals (obtain rfl | rfl | rfl : i2 = 0 ∨ i2 = 1 ∨ i2 = 2 := by omega)
+    all_goals first
+      | exact absurd rfl h10
+      | exact absurd rfl h20
+      | exact absurd rfl h21
+      | (simp only [Gen.posDirections, Gen.negDirections, List.getElem?_cons_zero, List.getElem?_cons_succ,
+          Option.some.injEq] at hpa hpb hpc
+         rcases hpa with rfl | rfl <;> rcases hpb with rfl | rfl <;> rcases hpc with rfl | rfl <;> decide +kernel)
+
 /-- **change of reference convention** (`_transform_affine_to_convention`, `Volume.get_affine`): for all
 48 × 48 (source, target) conventions, every affine and every index point `x`, coordinate `j` of the
 transformed affine at `x` is the projection of the physical point onto target letter `j`
